@@ -116,6 +116,19 @@ Proof. exact from_reader_ascii_written. Qed.
 Print Assumptions from_reader_written_binary.
 Print Assumptions from_reader_written_ascii.
 
+(* ---------------------------------------------------------------- the property, end to end *)
+
+(* write in either format, read with Mesh::from_reader (format detected automatically) *)
+Theorem medit_roundtrip_auto_binary : forall parse_f64 m,
+  wf_mesh m -> fbind (serialize_binary m) (from_reader parse_f64) = FOk (norm_bin m).
+Proof. exact medit_auto_binary_proof. Qed.
+Theorem medit_roundtrip_auto_ascii : forall print_f64 parse_f64 m,
+  wf_mesh_ascii m -> Forall (float_ok print_f64 parse_f64) (m_coords m) ->
+  fbind (serialize_ascii print_f64 m) (from_reader parse_f64) = FOk (norm_ascii m).
+Proof. exact medit_auto_ascii_proof. Qed.
+Print Assumptions medit_roundtrip_auto_binary.
+Print Assumptions medit_roundtrip_auto_ascii.
+
 (* ---------------------------------------------------------------- termination of the MEDIT parsers *)
 
 (* every loop of the parsers runs on fuel = 1 + remaining bytes; it never runs out, on any input *)
